@@ -277,20 +277,42 @@ theorem progress {s : BState} {c : ConnId} {x : BConn} {b : BSess} (hs : settleC
           | cons _ _ => simp
 
 /-- … and the delivery of the head of the stored queue is then an enabled output: with a token in
-    hand and nothing else pending, `observe` accepts the PUBLISH carrying the session's next id -/
+    hand and nothing else pending, `observe` accepts the PUBLISH carrying the next unused packet id
+    (`MemorySession.freshID`, the broker's `Client.nextID`) — provided there is one (`hfree`; by
+    `MemorySession.freshID_ne_zero_of_lt` that is the case whenever the outgoing store holds fewer than
+    65535 packets, see `delivery_enabled_of_room`) -/
 theorem delivery_enabled {s : BState} {c : ConnId} {x : BConn} {b : BSess} {h : Message}
     {rest : List Message} (hx : s.conn? c = some x) (hb : s.sessOf c = some b)
     (ha : x.alive = true) (hcs : x.closedSeen = false) (hp : x.procOut = []) (hao : x.ackOut = [])
-    (hh : x.deqHand = true) (hq : b.storedQ = h :: rest) :
+    (hh : x.deqHand = true) (hq : b.storedQ = h :: rest) (hfree : b.sess.freshID.1 ≠ 0) :
     ∃ id s', observe s (.sent c (.publish (applyQOS b h) false id)) = [s'] := by
-  refine ⟨if (applyQOS b h).qos = 0 then 0 else b.sess.nextID.1, ?_⟩
+  refine ⟨if (applyQOS b h).qos = 0 then 0 else b.sess.freshID.1, ?_⟩
   simp only [observe, observeSent, hx, hcs, hp, hao, popIf, hb, ha, acceptDelivery, hh, hq,
     Bool.false_eq_true, if_false, Bool.not_true, if_true]
   by_cases h0 : (applyQOS b h).qos = 0
   · simp [h0]
-  · simp [h0]
+  · simp [h0, hfree]
+
+/-- `hfree` is not an extra assumption in the states the broker reaches with well-behaved subscribers
+    (`GoodReachable`: acknowledgements name stored ids) and a window below 65535 (`ClientInflightMessages`,
+    default 10): the outgoing store then holds at most `window` packets (`window_respected`), so an
+    unused packet id exists (`MemorySession.freshID_ne_zero_of_lt`, pigeonhole over the 65535 ids) -/
+theorem delivery_enabled_reachable {cfg : Cfg} {s : BState} (hr : GoodReachable cfg s) (hw : cfg.window < 65535)
+    {c : ConnId} {x : BConn} {b : BSess} {h : Message} {rest : List Message}
+    (hx : s.conn? c = some x) (hb : s.sessOf c = some b)
+    (ha : x.alive = true) (hcs : x.closedSeen = false) (hp : x.procOut = []) (hao : x.ackOut = [])
+    (hh : x.deqHand = true) (hq : b.storedQ = h :: rest) :
+    ∃ id s', observe s (.sent c (.publish (applyQOS b h) false id)) = [s'] := by
+  have hlen := (window_respected hr).2.1 c x b hx ha hb
+  rw [cfg_constant hr.reachable] at hlen
+  exact delivery_enabled hx hb ha hcs hp hao hh hq (MemorySession.freshID_ne_zero_of_lt _ (by omega))
 
 /-! ### non-vacuity: a reachable state with a resumed session, packets in flight -/
+
+/-- the hypothesis `hfree` of `delivery_enabled` holds in ordinary states: a new session, and a session
+    whose counter has wrapped onto an id still in flight (there the allocator steps over it: id 2) -/
+example : ({} : MemorySession).freshID.1 = 1 ∧
+    ({ counter := ⟨1⟩, outgoing := ⟨[(1, .pubrel 1)]⟩ } : MemorySession).freshID.1 = 2 := by decide
 
 example : Inv spuriousState ∧ WindowInv spuriousState := ⟨spuriousState_inv, inv_windowInv spuriousState_inv⟩
 
